@@ -140,6 +140,49 @@ def analyse(plan: dict[str, Any], result: dict[str, Any]) -> Report:
             if inc['open_futures']:
                 rep.bad('C03.unresolved_future_at_end', inc=k,
                         futures=inc['open_futures'][:5])
+    # ---------------- C12 on the assignment each rank of the job really got
+    for k, inc in enumerate(result['incs']):
+        recs = inc['records']
+        inits = {r: recs[r][0] for r in recs
+                 if recs[r] and recs[r][0].get('op') == 'init'
+                 and 'views' in recs[r][0]}
+        if len(inits) != pp * dp * mp:
+            continue
+        rep.stats['assignment_views_checked'] += 1
+        for r, ini in inits.items():
+            c = topo.get_coord(r)
+            mpg = [topo.get_rank(pipe=c.pipe, data=c.data, model=m)
+                   for m in range(mp)]
+            dpg = [topo.get_rank(pipe=c.pipe, data=d, model=c.model)
+                   for d in range(dp)]
+            stage = [x for x in range(pp * dp * mp)
+                     if topo.get_coord(x).pipe == c.pipe]
+            for n, v in ini['views'].items():
+                inv = ini['inv'][n]
+                if inv not in stage:
+                    rep.bad('C12.inv_worker_outside_stage', props=['C12'],
+                            rank=r, layer=n, inv=inv, inc=k)
+                    continue
+                ci = topo.get_coord(inv)
+                inv_dp = [topo.get_rank(pipe=ci.pipe, data=d, model=ci.model)
+                          for d in range(dp)]
+                inv_mp = [topo.get_rank(pipe=ci.pipe, data=ci.data, model=m)
+                          for m in range(mp)]
+                if v['fw'] not in mpg or v['fw'] not in inv_dp:
+                    rep.bad('C12.factor_worker', props=['C12'], rank=r,
+                            layer=n, got=v['fw'], inc=k)
+                if v['src'] not in dpg or v['src'] not in inv_mp:
+                    rep.bad('C12.src_grad_worker', props=['C12'], rank=r,
+                            layer=n, got=v['src'], inc=k)
+                if v['gw'] != (r in inv_mp):
+                    rep.bad('C12.is_grad_worker', props=['C12'], rank=r,
+                            layer=n, inc=k)
+                for r2, ini2 in inits.items():
+                    if n in ini2['inv'] and ini2['inv'][n] != inv:
+                        rep.bad('C12.inv_worker_disagreement',
+                                props=['C12', 'C03'], layer=n, ranks=[r, r2],
+                                inc=k)
+                        break
     # ---------------- per stage reference walk
     stage_layers: dict[int, list[str]] = {}
     for s in range(pp):
